@@ -263,7 +263,10 @@ func genSession(g, f *sim.Stream, tier string) (pieces []*replPiece, finalExpr s
 			if vs := earlierIntVars(pos); len(vs) > 0 {
 				name = vs[f.Intn(len(vs))]
 			}
-			switch f.Intn(5) {
+			switch f.Intn(7) {
+			case 5, 6:
+				// the rejected piece introduces string and float constants
+				fp.Src = fmt.Sprintf("mark(%d, 1); tmpc%d := {%s: %s, %s: %s}; undefined_k%d", id, i, poolString(f), poolFloat(f), poolString(f), poolFloat(f), i)
 			case 3, 4:
 				// the rejected piece introduces an attribute name before failing
 				attr := []string{"append", "reverse", "copy", "count", "index", "sort", "filter", "pop", "map", "each", "extend"}[f.Intn(11)]
